@@ -274,7 +274,8 @@ pub fn build_program(decls: &[(Decl, String)], sc: &Scenario, sites: &[u8], name
         Shape::G => s.push_str(&format!("Pipeline PG {{ VertexShader = {}; PixelShader = {}; RenderTargetFormat0 = \"R8G8B8A8_UNORM\"; DefaultBindGroup = {}; }}\n", names.vs, names.ps, sc.d1)),
         Shape::CG => {
             s.push_str(&format!("Pipeline PC {{ ComputeShader = {}; DefaultBindGroup = {}; }}\n", names.cs, sc.d1));
-            s.push_str(&format!("Pipeline PG {{ VertexShader = {}; PixelShader = {}; RenderTargetFormat0 = \"R8G8B8A8_UNORM\"; DefaultBindGroup = {}; }}\n", names.vs, names.ps, sc.d2));
+            // stages written out of execution order here (pixel before vertex); shape G writes them in order
+            s.push_str(&format!("Pipeline PG {{ PixelShader = {}; VertexShader = {}; RenderTargetFormat0 = \"R8G8B8A8_UNORM\"; DefaultBindGroup = {}; }}\n", names.ps, names.vs, sc.d2));
         }
         Shape::CC => {
             s.push_str(&format!("Pipeline PC {{ ComputeShader = {}; DefaultBindGroup = {}; }}\n", names.cs, sc.d1));
